@@ -52,7 +52,10 @@ func keyPathsOf(c *Ctx) (map[string]string, []string, error) {
 }
 
 // docFor builds a YAML document tree that contains `path` with the given leaf
-// value; inject != "" adds an unknown key at object nesting level `level`.
+// value.  injectLevel -1: the minimal document (the leaf and the required top-level keys); docFilled: the object that
+// holds the leaf is filled in completely; >= 0: filled in, and an unknown key added at that object nesting level.
+const docFilled = -2
+
 func docFor(kinds map[string]string, path string, leaf any, injectLevel int) map[string]any {
 	root := map[string]any{"name": "p", "arch": "amd64", "version": "1.0.0"}
 	segs := strings.Split(path, ".")
@@ -69,7 +72,7 @@ func docFor(kinds map[string]string, path string, leaf any, injectLevel int) map
 			return map[string]any{"deb": build(i+1, objLevel)}
 		}
 		m := map[string]any{seg: build(i+1, objLevel+1)}
-		if i == len(segs)-1 {
+		if i == len(segs)-1 && injectLevel != -1 {
 			// the object that holds the leaf is filled in completely (every scalar sibling with a typed value): a
 			// document must not be rejected for an unrelated reason – a required sibling that is missing – when what
 			// is being asked is whether an unknown key next to the leaf is noticed
@@ -252,6 +255,10 @@ func runC16(c *Ctx) error {
 			continue
 		}
 		fam2.Eval(p, false)
+		if _, err := parse(docFor(kinds, p, leaf, docFilled), nil); err != nil {
+			c.Rep.Disagree(report.Disagreement{Family: "strict", What: "reflected key path with all scalar siblings set is not accepted by the parser", Input: map[string]any{"path": p}, Model: "accepted", Impl: err.Error()})
+			continue
+		}
 		for lvl := 0; lvl < objectLevels(p); lvl++ {
 			doc := docFor(kinds, p, leaf, lvl)
 			_, err := parse(doc, nil)
@@ -297,54 +304,58 @@ func runC16(c *Ctx) error {
 		if strings.Contains(p, "contents.[]") {
 			continue
 		}
-		for _, val := range []string{"${VERIF_X}", "plain value", " padded ", "$VERIF_X", "lib-$VERIF_X.so", "/usr/$VERIF_X/${VERIF_X}x"} {
-			cfg, err := parse(docFor(kinds, p, val, -1), env)
-			fam3.Eval(p+"|"+val, true)
-			if err != nil {
-				continue // e.g. enumerated/invalid for that field: not this property's business
-			}
-			got, ok := getByYamlPath(reflect.ValueOf(cfg), strings.Split(p, "."))
-			if !ok || got.Kind() != reflect.String {
-				continue
-			}
-			g := got.String()
-			var want string
-			hasRef := strings.Contains(val, "$")
-			// what the reference denotes: the model of os.Expand (family os-expand ties it to the library)
-			denoted := val
-			if hasRef {
-				if a, derr := c.D.Ask(fmt.Sprintf("expand %s %s", encEnv(env), wire.H(val))); derr == nil {
-					denoted, _ = wire.UnH(a)
+		// once alone in the document and once with every scalar sibling set (whether a field is expanded must not
+		// depend on which of its neighbours are configured)
+		for _, mode := range []int{-1, docFilled} {
+			for _, val := range []string{"${VERIF_X}", "plain value", " padded ", "$VERIF_X", "lib-$VERIF_X.so", "/usr/$VERIF_X/${VERIF_X}x"} {
+				cfg, err := parse(docFor(kinds, p, val, mode), env)
+				fam3.Eval(fmt.Sprintf("%s|%s|%d", p, val, mode), true)
+				if err != nil {
+					continue // e.g. enumerated/invalid for that field: not this property's business
 				}
-			}
-			switch {
-			case hasRef && expScalar[p]:
-				want = denoted
-			case hasRef && expSlice[p]:
-				want = strings.TrimSpace(denoted)
-			case expSlice[p]:
-				want = strings.TrimSpace(val)
-			default:
-				want = val
-			}
-			if p == "version" || p == "platform" || p == "arch" || p == "description" {
-				// defaults / semver normalisation rewrite these: only check the substitution happened
-				if hasRef && strings.Contains(g, "VERIF_X") {
-					c.Rep.Find(report.Finding{Property: "C16", Family: "expansion-scope", Shape: "documented-field-not-expanded", What: p + " kept the reference", Input: map[string]any{"path": p}})
+				got, ok := getByYamlPath(reflect.ValueOf(cfg), strings.Split(p, "."))
+				if !ok || got.Kind() != reflect.String {
+					continue
 				}
-				continue
-			}
-			if g != want {
-				shape := "value-changed"
+				g := got.String()
+				var want string
+				hasRef := strings.Contains(val, "$")
+				// what the reference denotes: the model of os.Expand (family os-expand ties it to the library)
+				denoted := val
 				if hasRef {
-					shape = "expansion-table-differs"
+					if a, derr := c.D.Ask(fmt.Sprintf("expand %s %s", encEnv(env), wire.H(val))); derr == nil {
+						denoted, _ = wire.UnH(a)
+					}
 				}
-				c.Rep.Disagree(report.Disagreement{Family: "expansion-scope", What: shape + ": parsed value vs static table G4", Input: map[string]any{"path": p, "value": val}, Model: fmt.Sprintf("%q", want), Impl: fmt.Sprintf("%q", g)})
-				if !hasRef {
-					c.Rep.Find(report.Finding{Property: "C16", Family: "expansion-scope", Shape: "dollar-free-value-changed", What: fmt.Sprintf("%s: %q became %q", p, val, g), Input: map[string]any{"path": p, "value": val}})
-				} else if val != "${VERIF_X}" && (expScalar[p] || expSlice[p]) {
-					// the field is one that is expanded (the braced form is): every form of reference must be
-					c.Rep.Find(report.Finding{Property: "C16", Family: "expansion-scope", Shape: "reference-form-not-substituted", What: fmt.Sprintf("%s: %q became %q, the reference denotes %q", p, val, g, want), Input: map[string]any{"path": p, "value": val, "mapping": env}})
+				switch {
+				case hasRef && expScalar[p]:
+					want = denoted
+				case hasRef && expSlice[p]:
+					want = strings.TrimSpace(denoted)
+				case expSlice[p]:
+					want = strings.TrimSpace(val)
+				default:
+					want = val
+				}
+				if p == "version" || p == "platform" || p == "arch" || p == "description" {
+					// defaults / semver normalisation rewrite these: only check the substitution happened
+					if hasRef && strings.Contains(g, "VERIF_X") {
+						c.Rep.Find(report.Finding{Property: "C16", Family: "expansion-scope", Shape: "documented-field-not-expanded", What: p + " kept the reference", Input: map[string]any{"path": p}})
+					}
+					continue
+				}
+				if g != want {
+					shape := "value-changed"
+					if hasRef {
+						shape = "expansion-table-differs"
+					}
+					c.Rep.Disagree(report.Disagreement{Family: "expansion-scope", What: shape + ": parsed value vs static table G4", Input: map[string]any{"path": p, "value": val}, Model: fmt.Sprintf("%q", want), Impl: fmt.Sprintf("%q", g)})
+					if !hasRef {
+						c.Rep.Find(report.Finding{Property: "C16", Family: "expansion-scope", Shape: "dollar-free-value-changed", What: fmt.Sprintf("%s: %q became %q", p, val, g), Input: map[string]any{"path": p, "value": val}})
+					} else if val != "${VERIF_X}" && (expScalar[p] || expSlice[p]) {
+						// the field is one that is expanded (the braced form is): every form of reference must be
+						c.Rep.Find(report.Finding{Property: "C16", Family: "expansion-scope", Shape: "reference-form-not-substituted", What: fmt.Sprintf("%s: %q became %q, the reference denotes %q", p, val, g, want), Input: map[string]any{"path": p, "value": val, "mapping": env}})
+					}
 				}
 			}
 		}
